@@ -192,7 +192,7 @@ def _shard_main(args) -> dict:
     try:
         enum = getattr(mod, 'enumerate_cases', None)
         has_drawn = getattr(mod, 'strategy', None) is not None and params.get('examples', 0) > 0
-        enum_end = time.time() + wall * (0.65 if has_drawn else 1.0)  # the enumerated grid may not starve the drawn cases of the shared wall budget
+        enum_end = time.time() + wall * (0.65 if has_drawn and tier == 'thorough' else 1.0)  # the enumerated grid may not starve the drawn cases of the shared wall budget
 
         if enum is not None:
             for case in enum(tier, shard, nshards, seed):
